@@ -1,4 +1,4 @@
-/* C19: natural cubic spline through HP_K knots with strictly increasing abscissae (gaps in [1e-4,1e4]) and symbolic ordinates
+/* C19: natural cubic spline through HP_K knots with strictly increasing abscissae (gaps in [1e-7,1e7]) and symbolic ordinates
  * (E-REAL). HP_WHICH 0: coefficient contracts (interpolation at both ends of every piece, C1 and C2 at interior knots, zero
  * second derivative at both ends, straight lines reproduced); 1: evaluation returns, for every knot and for a symbolic x inside
  * a symbolic piece, that piece's polynomial (piece lookup independent of the scale of x). */
@@ -23,7 +23,7 @@ void harness(void){
 #if HP_WHICH==2
   for(size_t i=0;i<HP_K;i++) X[i]=(double)(i*i)+0.5*(double)i-1.25;      /* concrete irregular knots: the piece search is decided by constants */
 #else
-  X[0]=in_double(-1e4,1e4); for(size_t i=1;i<HP_K;i++){ double g=in_double(1e-4,1e4); X[i]=X[i-1]+g; }
+  X[0]=in_double(-1e7,1e7); for(size_t i=1;i<HP_K;i++){ double g=in_double(1e-7,1e7); X[i]=X[i-1]+g; }
 #endif
   for(size_t i=0;i<HP_K;i++){ Y[i]=in_double(-1e3,1e3); xy->data[i][0]=X[i]; xy->data[i][1]=Y[i]; }
 #if HP_LINE
